@@ -40,13 +40,13 @@ def _case(args):
         blur = 45
     cfg = {"allow_list": rng.random() < 0.8, "usage": True if want == "C16" else rng.random() < 0.7, "blur": blur}
     res = {"seed": seed, "profile": "lock", "cfg": cfg, "n_events": 0, "div": None, "mon": {},
-           "nontrivial": {"C09": 0, "C16": 0}, "kf": [], "stale": [], "kinds": {}, "meta": {}, "no_model": True}
+           "nontrivial": {"C09": 0, "C16": 0, "C02": 0}, "kf": [], "stale": [], "kinds": {}, "meta": {}, "no_model": True}
     try:
         w = WORLD.World(cfg, seed=seed)
     except Exception:
         return {"seed": seed, "profile": "lock", "harness_error": traceback.format_exc()}
     events = []
-    viol09, viol16, viol10, viol13 = [], [], [], []
+    viol09, viol16, viol10, viol13, viol02 = [], [], [], [], []
     arrivals = []            # every time at which the server was handed anything
     try:
         def in_tx():
@@ -123,6 +123,7 @@ def _case(args):
         do({"k": "cmd", "c": c2, "msg": b2})
         do({"k": "cmd", "c": c2, "msg": {"type": "open", "mailbox": "mlock"}})
         do({"k": "advance", "dt": rng.choice([1, 8, 13, 59 * 8 + 3]), "fault": False})
+        closed_or_dropped = set()
         # ---- the fault
         which = "U" if (want == "C16" or (cfg["usage"] and rng.random() < (0.6 if want == "C13" else 0.4))) else "C"
         mode = rng.choice(["shared", "reserved"])
@@ -137,6 +138,8 @@ def _case(args):
             kind = rng.choice(cands)
             if want == "C13" and rng.random() < 0.7:
                 kind = "sweep"
+            if want == "C02" and which == "C" and rng.random() < 0.7:
+                kind = "open"
             if kind == "bind":
                 do({"k": "cmd", "c": c3, "msg": b3}, faulted=True)
             elif kind == "sweep":
@@ -147,13 +150,14 @@ def _case(args):
             elif kind == "release":
                 do({"k": "cmd", "c": c1, "msg": {"type": "release"}}, faulted=True)
             elif kind == "close":
+                closed_or_dropped.add(c2)
                 do({"k": "cmd", "c": c2, "msg": {"type": "close", "mood": "happy"}}, faulted=True)
             else:
                 unlock()
                 do({"k": "cmd", "c": c3, "msg": b3})
                 lock(which, mode)
                 msg = {"claim": {"type": "claim", "nameplate": rng.choice(["1", "2"])},
-                       "open": {"type": "open", "mailbox": rng.choice(["mlock", "m2"])},
+                       "open": {"type": "open", "mailbox": "mlock" if want == "C02" else rng.choice(["mlock", "m2"])},
                        "allocate": {"type": "allocate"}}[kind]
                 do({"k": "cmd", "c": c3, "msg": msg}, faulted=True)
             unlock()
@@ -164,6 +168,28 @@ def _case(args):
             do({"k": "cmd", "c": c4, "msg": {"type": "claim", "nameplate": rng.choice(["1", "3"])}})
             do({"k": "advance", "dt": w.PERIOD + rng.choice([0, 3]), "fault": False})
             do({"k": "cmd", "c": c4, "msg": {"type": "release"}})
+        # ---- C02 after the fault: whoever is (still) subscribed to the mailbox gets every add exactly once,
+        # including a connection that opens it only now (one Mailbox object per mailbox, whatever an error
+        # path cleaned up on the way)
+        subscribed = set(c for c in (c1, c2) if c in w.conns and c not in closed_or_dropped)
+        c6, b6 = client(app, rng.choice(["s1", "s2"]))
+        do({"k": "cmd", "c": c6, "msg": b6})
+        exc, log = do({"k": "cmd", "c": c6, "msg": {"type": "open", "mailbox": "mlock"}})
+        if exc is None and not any(e[0] == "F" and e[1] == c6 and e[3] == "error" for e in log) and c6 in w.conns:
+            subscribed.add(c6)
+        senders = [c6] + sorted(subscribed - {c6})[:1]
+        for sender in senders:
+            if sender not in w.conns or sender not in subscribed:
+                continue
+            exc, log = do({"k": "cmd", "c": sender, "msg": {"type": "add", "phase": "after", "body": "%02x" % sender}})
+            res["nontrivial"]["C02"] += 1
+            got = sorted(e[1] for e in log if e[0] == "F" and e[3] == "message")
+            want_rcpt = sorted(c for c in subscribed if c in w.conns or c == sender)
+            if exc is not None:
+                viol02.append("add by connection %d after the lock was gone failed internally (%s)" % (sender, exc))
+            elif got != want_rcpt:
+                viol02.append("add by connection %d (after a command of another connection had failed on a locked database and "
+                              "the lock was gone): delivered to connections %s, subscribed are %s" % (sender, got, want_rcpt))
         # a command after a commit that went through: every frame must be clean again
         c5, b5 = client(app, "s1")
         for ev in ({"k": "cmd", "c": c5, "msg": b5}, {"k": "cmd", "c": c5, "msg": {"type": "claim", "nameplate": "9"}},
@@ -215,6 +241,8 @@ def _case(args):
             res["meta"]["C10"] = meta("C10", viol10)
         if viol13:
             res["meta"]["C13"] = meta("C13", viol13)
+        if viol02:
+            res["meta"]["C02"] = meta("C02", viol02)
         return res
     except Exception:
         return {"seed": seed, "profile": "lock", "harness_error": traceback.format_exc()}
